@@ -110,6 +110,10 @@ void psAesReadyGCM(psAesGcm_t *ctx,
     Memset(ctx->EncCtr, 0, 16);
     Memcpy(ctx->EncCtr, IV, 12);
     ctx->EncCtr[15] = 2;
+    /* Start the key stream of this message at a block boundary: discard
+       whatever was left of the previous message's last counter block
+       (or of E(J0) after a tag shorter than 16 bytes was fetched) */
+    ctx->OutputBufferCount = 0;
 
     psGhashUpdate(ctx, aad, aadLen, GHASH_DATATYPE_AAD);
     psGhashPad(ctx);
